@@ -50,7 +50,9 @@ func verifRun(mode string) (string, int) {
 	verifSetFlagBool("coq", mode == "coq")
 	verifSetFlagString("out", "-")
 	verifSetArgs("/pkg")
-	code := verifCatchExit(main)
+	crashed := false
+	code := verifCatchExit(func() { crashed = verifTry(main) })
+	verifAssert("exit/"+mode+"-mode-does-not-crash", !crashed)
 	return verifStdout(), code
 }
 
